@@ -19,8 +19,8 @@ pub fn spec() -> PropSpec {
         ],
         run,
         replay,
-        describe_wal: None,
-        run_wal: None,
+        describe_wal: Some(progx::wal_describe),
+        run_wal: Some(progx::wal_run),
         both_profiles: true,
         workers: 0,
     }
